@@ -654,7 +654,7 @@ Proof.
     rewrite String.eqb_refl, Hid. cbn [andb]. exact Hcl.
 Qed.
 
-(** ** The pinned printer agrees with the patched one when no text needs escaping *)
+(** ** The old printer agrees with the patched one when no text needs escaping *)
 Lemma escape_quotes_none s : contains_char c_dq s = false -> escape_quotes s = s.
 Proof.
   unfold escape_quotes. change """"%char with c_dq.
@@ -676,59 +676,96 @@ Qed.
 
 Definition inputs_safe (r : regex) : Prop := forall inp, In inp (r_inputs r) -> rinput_raw_unsafe inp = false.
 
-Lemma rx_items_variant pool :
-  (forall rid sr, assocN rid pool = Some sr -> inputs_safe sr) ->
-  forall f r node parent p vis, inputs_safe r ->
-    rx_items f pinned pool r node parent p vis = rx_items f patched pool r node parent p vis.
+(** two variants write the texts of an input the same way *)
+Definition rx_agree (v1 v2 : variant) (inp : rinput) : Prop :=
+  match inp with
+  | RLit t None => v_rx_escape v1 t = v_rx_escape v2 t
+  | RLit t (Some d) => v_rx_escape v1 t = v_rx_escape v2 t /\ v_rx_escape v1 d = v_rx_escape v2 d
+  | RNonterm n => v_rx_escape v1 n = v_rx_escape v2 n
+  | _ => True
+  end.
+Definition inputs_agree (v1 v2 : variant) (r : regex) : Prop := forall inp, In inp (r_inputs r) -> rx_agree v1 v2 inp.
+
+Lemma rx_items_agree v1 v2 pool :
+  (forall rid sr, assocN rid pool = Some sr -> inputs_agree v1 v2 sr) ->
+  forall f r node parent p vis, inputs_agree v1 v2 r ->
+    rx_items f v1 pool r node parent p vis = rx_items f v2 pool r node parent p vis.
 Proof.
   intro Hpool. induction f as [|f IH]; intros r node parent p vis Hs; [reflexivity|].
   cbn [rx_items]. destruct (nthN (r_nodes r) node) as [n|]; [|reflexivity].
-  assert (Hin : forall pos inp, nthN (r_inputs r) pos = Some inp -> rinput_raw_unsafe inp = false).
+  assert (Hin : forall pos inp, nthN (r_inputs r) pos = Some inp -> rx_agree v1 v2 inp).
   { intros pos inp E. apply Hs. unfold nthN in E. exact (nth_error_In _ _ E). }
   destruct n as [|pos|pos|pos|pos|pos|children|children|c]; try reflexivity.
   - unfold rx_input. destruct (nthN (r_inputs r) pos) as [inp|] eqn:Ei; [|reflexivity]. cbn [obind].
-    destruct inp as [lit [d|]|?|?|?]; try reflexivity; specialize (Hin _ _ Ei); cbn [rinput_raw_unsafe] in Hin.
-    + apply orb_false_iff in Hin as [H1 H2]. cbn [v_rx_escape pinned patched].
-      now rewrite (escape_dot_safe _ H1), (escape_dot_safe _ H2).
-    + cbn [v_rx_escape pinned patched]. now rewrite (escape_dot_safe _ Hin).
+    destruct inp as [lit [d|]|?|?|?]; try reflexivity; specialize (Hin _ _ Ei); cbn [rx_agree] in Hin.
+    + destruct Hin as [H1 H2]. now rewrite H1, H2.
+    + now rewrite Hin.
   - unfold rx_input. destruct (nthN (r_inputs r) pos) as [inp|] eqn:Ei; [|reflexivity]. cbn [obind].
-    destruct inp as [?|name|?|?]; try reflexivity. specialize (Hin _ _ Ei). cbn [rinput_raw_unsafe] in Hin.
-    cbn [v_rx_escape pinned patched]. now rewrite (escape_dot_safe _ Hin).
+    destruct inp as [?|name|?|?]; try reflexivity. specialize (Hin _ _ Ei). cbn [rx_agree] in Hin. now rewrite Hin.
   - unfold rx_input. destruct (nthN (r_inputs r) pos) as [inp|] eqn:Ei; [|reflexivity]. cbn [obind].
     destruct inp as [?|?|?|rid]; try reflexivity. destruct (assocN rid pool) as [sr|] eqn:Ep; [|reflexivity].
     destruct (memN rid vis); [reflexivity|]. now rewrite (IH sr _ _ _ _ (Hpool rid sr Ep)).
   - change (fix go (l visited : list N) {struct l} : outcome unit (list item * list N) :=
               match l with
               | [] => Ok ([], visited)
-              | c :: rest => do a <- rx_items f pinned pool r c (Some (node_id p node)) p visited;
+              | c :: rest => do a <- rx_items f v1 pool r c (Some (node_id p node)) p visited;
                              do b <- go rest (snd a); Ok ((fst a ++ fst b)%list, snd b)
               end)
-      with (fold_children (fun c v => rx_items f pinned pool r c (Some (node_id p node)) p v)).
+      with (fold_children (fun c v => rx_items f v1 pool r c (Some (node_id p node)) p v)).
     change (fix go (l visited : list N) {struct l} : outcome unit (list item * list N) :=
               match l with
               | [] => Ok ([], visited)
-              | c :: rest => do a <- rx_items f patched pool r c (Some (node_id p node)) p visited;
+              | c :: rest => do a <- rx_items f v2 pool r c (Some (node_id p node)) p visited;
                              do b <- go rest (snd a); Ok ((fst a ++ fst b)%list, snd b)
               end)
-      with (fold_children (fun c v => rx_items f patched pool r c (Some (node_id p node)) p v)).
-    rewrite (fold_children_ext _ (fun c v => rx_items f patched pool r c (Some (node_id p node)) p v)); [reflexivity|].
+      with (fold_children (fun c v => rx_items f v2 pool r c (Some (node_id p node)) p v)).
+    rewrite (fold_children_ext _ (fun c v => rx_items f v2 pool r c (Some (node_id p node)) p v)); [reflexivity|].
     intros c v. now apply IH.
   - change (fix go (l visited : list N) {struct l} : outcome unit (list item * list N) :=
               match l with
               | [] => Ok ([], visited)
-              | c :: rest => do a <- rx_items f pinned pool r c (Some (node_id p node)) p visited;
+              | c :: rest => do a <- rx_items f v1 pool r c (Some (node_id p node)) p visited;
                              do b <- go rest (snd a); Ok ((fst a ++ fst b)%list, snd b)
               end)
-      with (fold_children (fun c v => rx_items f pinned pool r c (Some (node_id p node)) p v)).
+      with (fold_children (fun c v => rx_items f v1 pool r c (Some (node_id p node)) p v)).
     change (fix go (l visited : list N) {struct l} : outcome unit (list item * list N) :=
               match l with
               | [] => Ok ([], visited)
-              | c :: rest => do a <- rx_items f patched pool r c (Some (node_id p node)) p visited;
+              | c :: rest => do a <- rx_items f v2 pool r c (Some (node_id p node)) p visited;
                              do b <- go rest (snd a); Ok ((fst a ++ fst b)%list, snd b)
               end)
-      with (fold_children (fun c v => rx_items f patched pool r c (Some (node_id p node)) p v)).
-    rewrite (fold_children_ext _ (fun c v => rx_items f patched pool r c (Some (node_id p node)) p v)); [reflexivity|].
+      with (fold_children (fun c v => rx_items f v2 pool r c (Some (node_id p node)) p v)).
+    rewrite (fold_children_ext _ (fun c v => rx_items f v2 pool r c (Some (node_id p node)) p v)); [reflexivity|].
     intros c v. now apply IH.
+Qed.
+
+Lemma safe_agree inp : rinput_raw_unsafe inp = false -> rx_agree old patched inp.
+Proof.
+  destruct inp as [t [d|]|n|c|r]; cbn [rinput_raw_unsafe rx_agree v_rx_escape old patched]; intro H; try exact I.
+  - apply orb_false_iff in H as [H1 H2]. now rewrite (escape_dot_safe _ H1), (escape_dot_safe _ H2).
+  - now rewrite (escape_dot_safe _ H).
+  - now rewrite (escape_dot_safe _ H).
+Qed.
+
+Lemma rx_items_variant pool :
+  (forall rid sr, assocN rid pool = Some sr -> inputs_safe sr) ->
+  forall f r node parent p vis, inputs_safe r ->
+    rx_items f old pool r node parent p vis = rx_items f patched pool r node parent p vis.
+Proof.
+  intros Hpool f r node parent p vis Hs. apply rx_items_agree.
+  - intros rid sr E inp Hin. apply safe_agree. exact (Hpool rid sr E inp Hin).
+  - intros inp Hin. apply safe_agree. exact (Hs inp Hin).
+Qed.
+
+Lemma current_agree inp : rx_agree current patched inp.
+Proof. destruct inp as [t [d|]|n|c|r]; cbn; auto. Qed.
+
+(** the code as it is now writes the --regex file exactly as the fully patched one *)
+Lemma of_regex_current pool r : of_regex pool r = of_regex_with patched pool r.
+Proof.
+  unfold of_regex, of_regex_with, regex_items. rewrite (rx_items_agree current patched pool); [reflexivity| |].
+  - intros rid sr _ inp _. apply current_agree.
+  - intros inp _. apply current_agree.
 Qed.
 
 Lemma assocN_In {V} k (v : V) l : assocN k l = Some v -> In (k, v) l.
@@ -739,13 +776,13 @@ Proof.
 Qed.
 
 Theorem regex_variants_agree pool r :
-  known_rx_all pool r = false -> of_regex pool r = of_regex_with patched pool r.
+  known_rx_all pool r = false -> of_regex_with old pool r = of_regex_with patched pool r.
 Proof.
   unfold known_rx_all. intro H. apply orb_false_iff in H as [H1 H2].
   assert (Hf : forall {A} (f : A -> bool) l x, existsb f l = false -> In x l -> f x = false).
   { intros A f l x He Hin. destruct (f x) eqn:E; [|reflexivity].
     assert (existsb f l = true) by (apply existsb_exists; now exists x). congruence. }
-  unfold of_regex, of_regex_with, regex_items. rewrite rx_items_variant; [reflexivity| |].
+  unfold of_regex_with, regex_items. rewrite rx_items_variant; [reflexivity| |].
   - intros rid sr Ea inp Hin. apply assocN_In in Ea. pose proof (Hf _ _ _ (rid, sr) H2 Ea) as Hq. cbn [snd] in Hq.
     exact (Hf _ _ _ inp Hq Hin).
   - intros inp Hin. exact (Hf _ _ _ inp H1 Hin).
@@ -810,7 +847,7 @@ Proof.
   destruct (regex_dot_patched pool r text A H) as [g [Hr Hok]]. exists g. split; [exact Hr|now apply Hok].
 Qed.
 
-Theorem regex_dot_pinned_b pool r text :
-  rx_wf_b pool r = true -> known_rx_all pool r = false -> of_regex pool r = Ok text ->
+Theorem regex_dot_old_b pool r text :
+  rx_wf_b pool r = true -> known_rx_all pool r = false -> of_regex_with old pool r = Ok text ->
   exists g, read text = Some g /\ regex_ok g (spec_pool pool) (spec_items r).
 Proof. intros Hwf Hk H. rewrite (regex_variants_agree pool r Hk) in H. now apply regex_dot_patched_b. Qed.
